@@ -8,7 +8,7 @@ CFG = cfg('C08', refine=['Refine_subarea'], extract='Ex_C08', driver='c08',
                "repository's 56 GnuPG-made packet fixtures must normalise once (header length == body length, same body, fixed point); "
                'model correspondence (extracted format terms) on every canonical packet of a modelled type + model-encoded packets with generated '
                'values fed to PGPy; old-format key grown by protect(); generated foreign signature packets (hashed and unhashed areas with every legal length '
-               'form, multi-octet flags, unknown types, any charset) must re-export with header length == body length, the same field values, fixed point. non-trivial = parsed by the implementation; distinct by packet octets',
+               'form, multi-octet flags, unknown types, any charset) must re-export with header length == body length, the same field values, fixed point; generated foreign BODIES (loose multiprecision integers in key / session-key packets, key and session-key packets of algorithms without class, legacy S2K usage octets, user attributes without image) likewise. non-trivial = parsed by the implementation; distinct by packet octets',
           trusted=['Model/Packets.v format terms (hand-written from packets.py / fields.py)'],
           assumptions=['compression codecs (zlib, bz2) are primitives; ciphertext bodies are opaque octets for the codec'])
 
@@ -19,6 +19,9 @@ TEXT = ('Rocq theorems (Props/C08.v, closed): one generic round-trip theorem dec
         'keys/subkeys of 6 algorithms, compressed, SED, marker, literal, user id, user attribute, SEIPD, MDC, opaque) is a self-delimiting instance, '
         'and the emitted header carries exactly the body length. The foreign-input half (old-format / partial framings, GnuPG fixtures) is decided on '
         'the implementation by the correspondence run, and for the two subpacket areas of a signature by Model/SubArea.v: an accepted packet\'s areas '
-        'are re-exported octet for octet whatever encodings the producer chose (C08_subpacket_areas_verbatim, _fixed_point; the pre-repair rule refuted). Known finding: DSA/ElGamal secret keys with S2K usage 255 (not exercised).',
+        'are re-exported octet for octet whatever encodings the producer chose (C08_subpacket_areas_verbatim, _fixed_point; the pre-repair rule refuted). '
+        'Foreign input normalises once, as a theorem for the modelled formats (Model/FmtStrict.v, Proofs/Fmt_lemmas2.v): every encoding the decoder accepts with complete, encodable multiprecision '
+        'integers and no partial body lengths (any length form, any bit count covering leading zeros) re-serialises to a defined packet, not longer, that parses back to the same value and is a fixed point '
+        '(C08_foreign_normalises_once_partial; C08_strict_accepts_own_output; the three ways the unrestricted statement fails are closed witnesses in C08_foreign_normalises_once_refuted).',
         'DESIGN.md 5 C08',
         'machine-checked proof in Rocq (Coq 8.16.1) + extracted-model correspondence + implementation round-trip enumeration')
